@@ -63,6 +63,10 @@ def split_top(doc, rnd, overlap):
     docs = [{"t": "map", "k": [ks[i] for i in b], "v": [vs[i] for i in b]} for b in buckets]
     if overlap and n > 0:
         i = rnd.randrange(n)
+        # half of the time the shared key holds a map on both sides (a clash, not something to merge)
+        maps = [j for j in range(n) if vs[j].get("t") == "map" and len(vs[j].get("k", [])) > 0]
+        if maps and rnd.random() < 0.5:
+            i = rnd.choice(maps)
         if overlap == "pp":
             a, b = rnd.sample(range(nparts), 2)
         else:
@@ -72,6 +76,9 @@ def split_top(doc, rnd, overlap):
             if ks[i] not in docs[t]["k"]:
                 at = rnd.randint(0, len(docs[t]["k"]))
                 v = vs[i] if (first or rnd.random() < 0.5) else mutate_doc(vs[i], rnd)
+                if not first and vs[i].get("t") == "map" and rnd.random() < 0.6:
+                    # the second definition is a map with other keys: still a clash of the shared key
+                    v = {"t": "map", "k": [[122, 113]], "v": [{"t": "int", "v": 0}]}
                 docs[t]["k"].insert(at, ks[i])
                 docs[t]["v"].insert(at, v)
             first = False
